@@ -116,9 +116,10 @@ def classify(pc, impl_t, spec_t):
         return "C14:%s-panic" % kind, j
     if ti == "X":
         return "C14:%s-not-seekable" % kind, j
-    if ti.startswith("V") and ts.startswith("V") and ti != "V-" and unhex(ti[1:])[1:] == unhex(ts[1:]):
+    if (ti.startswith("V") and ts.startswith("V") and ti != "V-" and unhex(ti[1:])[1:] == unhex(ts[1:])
+            and unhex(ti[1:]) not in pc["inputs"]):
         return "C14:seek-returns-tagged-key", j
-    if ts == "V-" or b"" in pc["inputs"]:
+    if (ts == "V-" and ti != "V-") or (ti == "I" and b"" in pc["inputs"]):
         # the empty-string element itself is missing, or a set containing it is cut short
         return "C14:empty-string-element-lost", j
     seeks = any(o != "N" for o in pc["ops"][:j])
